@@ -648,6 +648,11 @@ class InterpolatableFunction(ABC):
         self._directEvaluateCount = 0
         self._directlyEvaluatedAt = []
 
+        if not self.hasInterpolation() and evaluatedPointMax <= evaluatedPointMin:
+            ## All evaluations were at one and the same point: there is no range to
+            ## tabulate yet, so wait for further evaluations
+            return
+
         if self.hasInterpolation():
             appendPointCount = int(0.2 * self._initialInterpolationPointCount)
         else:
